@@ -200,6 +200,13 @@ pub fn execute(case: &Case) -> Exec {
             let out = case.multi.as_ref().map(crate::multi::run_multi);
             Exec { h: History::default(), alts: vec![], multi: out, parser_panics: vec![], wall_us: 0, cpu_us: 0, alt_cpu_us: vec![] }
         }
+        "history" => {
+            // the scenario alone on a fresh thread, and again after its predecessors on one thread
+            let h = world::run_cli(&case.scn);
+            let preds: Vec<Scenario> = case.alts.iter().filter(|a| a.role == "pred").map(|a| a.scn.clone()).collect();
+            let h2 = world::run_after(&preds, &case.scn);
+            Exec { h, alts: vec![h2], multi: None, parser_panics: vec![], wall_us: 0, cpu_us: 0, alt_cpu_us: vec![] }
+        }
         "scaling" => {
             // executed on this thread (64 MiB stack), so that its CPU time can be read
             let t0 = crate::c15::thread_cpu_us();
@@ -277,6 +284,7 @@ pub fn judge(case: &Case, ex: &Exec) -> Result<Vec<Violation>, String> {
         ("C17", _) => oracle::check_c17(case, &ex.h, &ex.alts),
         ("C18", _) => oracle::check_c18(case, &ex.h),
         ("C19", "env") => crate::c19::judge_env(case, ex),
+        ("C19", "history") => crate::c19::judge_history(case, ex),
         ("C15", _) => crate::c15::judge(case, ex),
         _ => vec![],
     };
